@@ -67,6 +67,11 @@ func (r *lru) SetCapacity(capacity int) {
 		if rn == nil {
 			panic("BUG: invalid LRU used or capacity counter")
 		}
+		if rn == &r.recent {
+			// The list is circular: its sentinel, never nil, comes back when
+			// nothing is left to evict, whatever the capacity says.
+			break
+		}
 		rn.remove()
 		rn.n.CacheData = nil
 		r.used -= rn.n.Size()
@@ -94,6 +99,11 @@ func (r *lru) Promote(n *Node) {
 				rn := r.recent.prev
 				if rn == nil {
 					panic("BUG: invalid LRU used or capacity counter")
+				}
+				if rn == &r.recent {
+					// The list is circular: its sentinel, never nil, comes back when
+					// nothing is left to evict, whatever the capacity says.
+					break
 				}
 				rn.remove()
 				rn.n.CacheData = nil
